@@ -624,6 +624,11 @@ func (s *TermStore) Cmp(op Op, a, b *Term) *Term {
 	return s.mk(&Term{Op: op, Sort: SBool, A: []*Term{a, b}})
 }
 
+// RawEq builds an equality without simplification (the comparison is left to the solver).
+func (s *TermStore) RawEq(a, b *Term) *Term {
+	return s.mk(&Term{Op: OEq, Sort: SBool, A: []*Term{a, b}})
+}
+
 func (s *TermStore) Not(a *Term) *Term {
 	if a.IsConst() {
 		return s.Bool(a.C == 0)
